@@ -68,13 +68,17 @@ var statusCmd = &cobra.Command{
 		}
 
 		// compare index with HEAD commit
-		treeObj, err := object.GetObject(client.RootGoitPath, client.Head.Commit.Tree)
-		if err != nil {
-			return fmt.Errorf("fail to get tree object: %w", err)
-		}
-		tree, err := object.NewTree(client.RootGoitPath, treeObj)
-		if err != nil {
-			return fmt.Errorf("fail to get tree: %w", err)
+		// before the first commit there is no HEAD commit: compare with the empty tree
+		tree := &object.Tree{}
+		if client.Head.Commit != nil {
+			treeObj, err := object.GetObject(client.RootGoitPath, client.Head.Commit.Tree)
+			if err != nil {
+				return fmt.Errorf("fail to get tree object: %w", err)
+			}
+			tree, err = object.NewTree(client.RootGoitPath, treeObj)
+			if err != nil {
+				return fmt.Errorf("fail to get tree: %w", err)
+			}
 		}
 		diffEntries, err := client.Idx.DiffWithTree(tree)
 		if err != nil {
